@@ -175,6 +175,7 @@ type c18Obs struct {
 	ConsumerDone bool
 	ProducerDone bool
 	Deadlock     bool
+	Stalled      bool
 	Panics       []string
 	Parked       []string
 	Trace        []string
@@ -305,6 +306,7 @@ func c18RunModelAfter(x *Exec, first *c18Input, in c18Input, policy int) c18Obs 
 		}
 	}
 	o.Deadlock = s.Deadlock
+	o.Stalled = s.Stalled
 	o.Panics = s.Panics
 	o.Parked = s.ParkedAtEnd()
 	o.Trace = s.Trace
@@ -383,6 +385,11 @@ func checkC18(w *Worker) {
 		in := inputs[ii]
 		refEvents, refErr := c18Reference(in)
 		o := c18RunModelAfter(x, first, in, policy)
+		if o.Stalled {
+			x.Case("skip: not schedulable", false)
+			x.Note("schedule_exploration_abandoned", 1)
+			return
+		}
 		obs := strings.Join(o.Events, " | ")
 		x.Obs(obs, fmt.Sprint(o.ConsumerDone, o.ProducerDone, o.Deadlock))
 		x.Case(fmt.Sprint(ii, policy, o.Trace), refErr != "" || len(refEvents) > 1)
